@@ -2,6 +2,7 @@ package sim
 
 import (
 	"bytes"
+	"encoding/hex"
 	"fmt"
 	"github.com/xuperchain/xupercore/bcs/ledger/xledger/state/xmodel"
 	"math/big"
@@ -543,6 +544,50 @@ func (r *txRun) doUnauthorised(f *TxForm) *Violation {
 			defer tw.Drop()
 			if tw.Chain.SubmitTx(tw.BaseCtx(), CloneTx(tx)) == nil {
 				return r.viol("unauthorised-spend-admitted", "a spend of another address's output carrying a forged record of contract-performed inputs and no contract request was admitted: %s", descTx(tx))
+			}
+			return nil
+		}
+		if f.A%2 == 0 && f.C%3 == 1 {
+			// ... dressed as a transaction "marked" by the regulatory address (whose signature stands in
+			// for the ordinary checks), with a well-formed signature that is not the regulator's over this
+			// transaction: made by another key, or by the regulator over another transaction
+			regulator := Accts[5]
+			tx, err := BuildTx(&TxSpec{From: thief, Version: int32(f.Ver), Inputs: []UtxoRef{u}, Outs: []OutSpec{{To: thief.Addr, Amount: u.Amount}}, NoChange: true})
+			if err != nil {
+				return nil
+			}
+			signed := CloneTx(tx)
+			signer, how := thief, "signed by another key"
+			if f.B%8 >= 4 {
+				signer, how = regulator, "carrying the regulator's signature over another transaction"
+				signed.Desc = append(signed.Desc, 'x')
+			}
+			signed.ModifyBlock = &lpb.ModifyBlock{}
+			dg, err := txhash.MakeTxDigestHash(signed)
+			if err != nil {
+				return nil
+			}
+			sig, err := Crypto.SignECDSA(signer.SK, dg)
+			if err != nil {
+				return nil
+			}
+			tx.ModifyBlock = &lpb.ModifyBlock{Marked: true, EffectiveHeight: 0, PublicKey: regulator.Pub, Sign: hex.EncodeToString(sig)}
+			if tx.Txid, err = txhash.MakeTransactionID(tx); err != nil {
+				return nil
+			}
+			r.rc.St.Probes["unauthorised-spend-tried"]++
+			r.rc.St.Probes["forged-regulator-mark-tried"]++
+			tw, err := n.Twin()
+			if err != nil {
+				panic(err)
+			}
+			defer tw.Drop()
+			tw.S.XsimSetModifyBlockAddr(regulator.Addr)
+			if ok, err := tw.S.VerifyTx(CloneTx(tx)); ok && err == nil {
+				return r.viol("forged-regulator-mark-verified", "a spend of another address's output marked as regulated, %s, passed State.VerifyTx: %s", how, descTx(tx))
+			}
+			if tw.Chain.SubmitTx(tw.BaseCtx(), CloneTx(tx)) == nil {
+				return r.viol("unauthorised-spend-admitted", "a spend of another address's output marked as regulated, %s, was admitted: %s", how, descTx(tx))
 			}
 			return nil
 		}
